@@ -3,8 +3,15 @@
 
 package service
 
+import "com.tuntun.rangers/node/src/common"
+
 // VerifResetPool forgets the pool singleton so that InitService opens it again (in-process
 // restart). Build tag "verif" only.
 func VerifResetPool() {
 	txpoolInstance = nil
+}
+
+// VerifRefundAddress is the account under which refunds and rewards due at height are kept.
+func VerifRefundAddress(height uint64) common.Address {
+	return RefundManagerImpl.generateAddress(height)
 }
